@@ -10,6 +10,7 @@ text, and parent links.  A missing file or a syntax error is an AnalysisError
 (exit 2), never a silent pass.
 """
 import ast
+import json
 import hashlib
 import os
 
@@ -37,6 +38,7 @@ class Module(object):
             self.tree = ast.parse(source, filename=relpath)
         except SyntaxError as e:
             raise AnalysisError("%s does not parse: %s" % (relpath, e))
+        self.renamed = canonical_locals(name, self.tree)
         for parent in ast.walk(self.tree):
             for child in ast.iter_child_nodes(parent):
                 child._parent = parent
@@ -139,6 +141,109 @@ class Module(object):
 
     def loc(self, node):
         return "%s:%d" % (self.relpath, getattr(node, "lineno", 0))
+
+
+# ---------------------------------------------------------------------------
+# canonical local names
+# ---------------------------------------------------------------------------
+# The rules of the checks name local variables of the analysed functions (e.g. `fmtsize`, `parts`).  A
+# behaviour-preserving rename of a local must not change any verdict, so every function is brought back to the local
+# names it had when the rules were written: sa/names.json records, per function, the ordered list of names it binds.
+# If a function now binds a name that the record does not know and lacks exactly as many recorded names, the unknown
+# names are mapped - in order of first binding - onto the missing ones.  Functions whose set of names is unchanged,
+# or whose number of locals changed, are left exactly as they are.
+_NAMES = None
+
+
+def bound_names(fn):
+    """ordered, duplicate-free list of the names a function binds (parameters first), nested functions excluded"""
+    out = []
+
+    def add(n):
+        if n not in out:
+            out.append(n)
+    a = fn.args
+    for arg in a.posonlyargs + a.args + a.kwonlyargs:
+        add(arg.arg)
+    if a.vararg:
+        add(a.vararg.arg)
+    if a.kwarg:
+        add(a.kwarg.arg)
+    todo = list(fn.body)
+    order = []
+    while todo:
+        n = todo.pop(0)
+        order.append(n)
+        if isinstance(n, (ast.FunctionDef, ast.AsyncFunctionDef, ast.ClassDef, ast.Lambda)):
+            continue
+        todo = list(ast.iter_child_nodes(n)) + todo
+    for n in order:
+        if isinstance(n, ast.Name) and isinstance(n.ctx, (ast.Store, ast.Del)):
+            add(n.id)
+        elif isinstance(n, ast.ExceptHandler) and n.name:
+            add(n.name)
+        elif isinstance(n, (ast.FunctionDef, ast.AsyncFunctionDef, ast.ClassDef)):
+            add(n.name)
+    return out
+
+
+def _qualified_functions(tree):
+    out = []
+
+    def rec(body, prefix):
+        for node in body:
+            if isinstance(node, (ast.FunctionDef, ast.AsyncFunctionDef)):
+                out.append((prefix + node.name, node))
+                rec(node.body, prefix + node.name + ".<locals>.")
+            elif isinstance(node, ast.ClassDef):
+                rec(node.body, prefix + node.name + ".")
+            elif isinstance(node, (ast.If, ast.Try, ast.With, ast.For, ast.While)):
+                for field in ("body", "orelse", "finalbody"):
+                    rec(getattr(node, field, []) or [], prefix)
+                for h in getattr(node, "handlers", []) or []:
+                    rec(h.body, prefix)
+    rec(tree.body, "")
+    return out
+
+
+def canonical_locals(modname, tree):
+    """rename renamed locals back to their recorded names; returns {qualname: {current: recorded}}"""
+    global _NAMES
+    if _NAMES is None:
+        path = os.path.join(os.path.dirname(os.path.abspath(__file__)), "names.json")
+        try:
+            with open(path) as fp:
+                _NAMES = json.load(fp)
+        except (IOError, ValueError):
+            _NAMES = {}
+    rec = _NAMES.get(modname) or {}
+    done = {}
+    for qual, fn in _qualified_functions(tree):
+        want = rec.get(qual)
+        if not want:
+            continue
+        cur = bound_names(fn)
+        if cur == want:
+            continue
+        new = [n for n in cur if n not in want]
+        missing = [n for n in want if n not in cur]
+        if not new or len(new) != len(missing):
+            continue
+        glob = set(x for n in ast.walk(fn) if isinstance(n, (ast.Global, ast.Nonlocal)) for x in n.names)
+        mapping = {a: b for a, b in zip(new, missing) if a not in glob}
+        if not mapping:
+            continue
+        for n in ast.walk(fn):
+            if isinstance(n, ast.Name) and n.id in mapping:
+                n.id = mapping[n.id]
+            elif isinstance(n, ast.arg) and n.arg in mapping:
+                n.arg = mapping[n.arg]
+            elif isinstance(n, ast.ExceptHandler) and n.name in mapping:
+                n.name = mapping[n.name]
+            elif isinstance(n, ast.keyword) and n.arg in mapping and False:
+                pass
+        done[qual] = mapping
+    return done
 
 
 _FRAG_CACHE = {}
